@@ -162,6 +162,20 @@ func gcmCases(rng *hk.RNG, scale int) []*gcmCase {
 	for nl := 1; nl <= 300; nl++ {
 		cs = append(cs, mk("nonce-sweep", nl, rng.Pick(lenClasses[:12]), rng.Pick(lenClasses[:24]), 16))
 	}
+	// lengths CONGRUENT to the special ones modulo a register width: the nonce length 12 selects another
+	// derivation of the pre-counter block, 0 and multiples of 16 select other kernels; a comparison or a
+	// counter that is narrower than the length (8, 16 bits; 24 in thorough) confuses 12 + 2^k with 12
+	for _, k := range []uint{8, 16} {
+		for _, v := range []int{0, 1, 12, 13, 16} {
+			cs = append(cs, mk("width-congruent-nonce", v+1<<k, rng.Pick(lenClasses[:12]), rng.Pick(lenClasses[:24]), 16))
+		}
+		cs = append(cs, mk("width-congruent-nonce", 1<<k-1, 5, 33, 16))
+		cs = append(cs, mk("width-congruent-aad", 12, 1<<k, 20, 16), mk("width-congruent-aad", 12, 1<<k+1, 0, 16), mk("width-congruent-aad", 12, 1<<k-1, 16, 16), mk("width-congruent-aad", 12, 1<<k+16, 300, 16))
+		cs = append(cs, mk("width-congruent-pt", 12, 7, 1<<k, 16), mk("width-congruent-pt", 12, 0, 1<<k+1, 16), mk("width-congruent-pt", 12, 16, 1<<k-1, 16), mk("width-congruent-pt", 12, 3, 1<<k+16, 12))
+	}
+	if scale >= 2 {
+		cs = append(cs, mk("width-congruent-nonce", 12+1<<24, 3, 40, 16), mk("width-congruent-nonce", 1<<24, 0, 16, 16), mk("width-congruent-aad", 12, 1<<24, 1, 16), mk("width-congruent-pt", 12, 1, 1<<24, 16))
+	}
 	// tag sizes 12..16 at nonce 12
 	for tag := 12; tag <= 16; tag++ {
 		for _, pl := range lenClasses {
